@@ -4,6 +4,7 @@ package rules
 import (
 	"fmt"
 	"go/token"
+	"reflect"
 	"sort"
 
 	"golang.org/x/tools/go/ssa"
@@ -120,7 +121,7 @@ func (c *Ctx) add(rule string, fn *ssa.Function, construct string, at ssa.Instru
 		pos = c.P.Pos(fn.Pos())
 		c.Saw(fn)
 	}
-	if at != nil {
+	if at != nil && !reflect.ValueOf(at).IsNil() {
 		pos = c.P.InstrPos(at)
 	}
 	if st == report.Discharged {
